@@ -5,13 +5,14 @@
     (maximal runs, first comment closer) and fix its values on a set of pinned neighbourhoods;
     (b) the check, which runs the extracted [reflex] and the implementation on the same
     macro-free inputs and reports every difference as a violation with the (shrunk) input.
-    (c) [C11_lexer_is_reference_partial]: on macro-free text without quote characters the lexer
+    (c) [C11_lexer_is_reference_partial]: on macro-free text without double-quote characters the lexer
     model's release-profile run returns, is not cut by the budget, and yields exactly the
     reference reading - types, channels, byte offsets and payloads of all tokens, kinds and offsets
     of all errors, the literal buffer - for every such text, by simulation of every lexeme class
     (whitespace, comments, symbols, numbers, identifiers and keywords, character formats,
-    datalines blocks, statement comments).  The full statement [C11_statement] drops the quote
-    restriction; for quoted literals it is established by execution (b), not yet by a theorem. *)
+    datalines blocks, statement comments, single-quoted literals with suffixes and hex decoding).
+    The full statement [C11_statement] drops the double-quote
+    restriction; for double-quoted literals it is established by execution (b), not yet by a theorem. *)
 From Coq Require Import NArith List Bool String Ascii.
 From SasLexer Require Import Gen.TokenType Gen.ErrorKind Gen.Channel Model.Base Model.Helpers Model.Numeric
      Model.Core Model.Lexer3 Spec.RefLex Proofs.RefLexProofs Proofs.OcBase Proofs.OcWhole Proofs.OcAll.
